@@ -52,7 +52,8 @@ class runtime_error(FeedbackResponse):
         exception_name_proper = add_indefinite_article(exception_name)
         try:
             exception_message = str(exception)
-        except Exception:
+        except (Exception, SystemExit):
+            # The student's __str__ may fail in any way, including exit()
             exception_message = "<exception str() failed>"
         exception_message = exception_message[0].upper() + exception_message[1:] if exception_message else ""
         if type(exception) not in EXCEPTION_FF_MAP:
